@@ -35,6 +35,15 @@ CHECKS = {
    text='bounded, solver-decided by two engines that must agree: Kani/CBMC verifies the compiled merge_necessity::<u8> for every list shape (LA,LB) in the stated set with all items and tags symbolic (unwinding assertions on, so within a shape the result holds for all values); rsym/z3 decides the same four clauses on the source with symbolic names for all shapes up to 3x3 (4x4 thorough)',
    design='§4 C15, §2.1', engine='rsym+kani', technique='Kani (CBMC/cadical) bounded model checking of the compiled generic function per list shape, cross-checked by source-level symbolic execution with z3',
    note='trusted base: Kani 0.68/CBMC 6.11, rsym + z3, tools/replay; Kani instantiates T = u8, the library uses T = String (same generic source)'),
+ 'C01': dict(
+   text='bounded, solver-decided: parse + extend + render on symbolic document sequences with names from adversarial pools (plain, prefixed, xmlns:*, keyword-like, case variants, hyphenated, non-ASCII); the one-sided soundness oracle is evaluated on the RENDERED OUTPUT (bindings, Option/Vec wrappers, text field / String typing) against every occurrence of the symbolic documents and decided by z3 per path',
+   design='§4 C01', technique='symbolic execution of parser + renderer; soundness oracle over the rendered output decided by z3 per path; native replay'),
+ 'C04': dict(
+   text='bounded, solver-decided: documents whose element/attribute names are solver-chosen members of adversarial alphabets are parsed and rendered; an independent reader of the emitted grammar re-reads the output and every clause (legal non-keyword identifiers, unique struct names, no shadowing, unique fields, defined field types, single use) is decided per path. Eight genuine defects are listed by role in known_findings.json; every clause is queried separately so that a violation outside the listed roles is still a VIOLATION',
+   design='§4 C04, §6', technique='symbolic execution with solver-chosen adversarial names; independent output reader; per-clause decision; role-keyed known findings'),
+ 'C14': dict(
+   text='bounded, solver-decided: trees from templates (same name under two parents, at several depths, under itself, next to unique names, merged from two documents) with solver-chosen names; PascalCase from interpreting convert_string; per path: first struct is the root\'s, every struct name is nearest-ancestors + own (+suffix), names occurring at a single position are unqualified',
+   design='§4 C14', technique='symbolic execution of compute_name_hints / expand_name / inner_to_serde_struct with solver-chosen names; naming clauses decided per path'),
  'C03': dict(
    text='bounded, solver-decided: every feasible path of the parser over symbolic document skeletons (names, presence, repetition, element form, text kind, attribute subsets, document split symbolic) is executed from /repo\'s source and z3 shows PC and not(two-sided inference oracle) unsatisfiable; holds for every document inside the listed skeleton bounds, nothing is claimed outside them',
    design='§4 C03, §3.1, §3.3', technique='symbolic execution of the real source (own executor over syn AST) + z3 per-path assertion checking; native replay of counterexamples'),
